@@ -430,7 +430,9 @@ def write_replay(prop, kind, broken, cases, seed, tier, extra=None):
 
 
 def write_evidence(prop, tier, seed, t0, proof, coverage_extra, violations, assumptions=None):
-    os.makedirs(os.path.join(VERIF, "evidence"), exist_ok=True)
+    # tools/try_mutant.sh (a run against a deliberately broken tree) redirects its evidence so that evidence/ always describes /repo itself
+    evdir = os.environ.get("VERIF_EVIDENCE_DIR") or os.path.join(VERIF, "evidence")
+    os.makedirs(evdir, exist_ok=True)
     cov = dict(
         obligations=proof.get("obligations", 0),
         discharged=proof.get("discharged", 0),
@@ -442,7 +444,7 @@ def write_evidence(prop, tier, seed, t0, proof, coverage_extra, violations, assu
     cov.update(coverage_extra)
     ev = dict(property_id=prop, tier=tier, seed=seed, level="proof", coverage=cov,
               assumptions=assumptions or [], wall_s=round(time.time() - t0, 2), violations=violations)
-    json.dump(ev, open(os.path.join(VERIF, "evidence", prop + ".json"), "w"), indent=1)
+    json.dump(ev, open(os.path.join(evdir, prop + ".json"), "w"), indent=1)
 
 
 def ensure_built(profiles):
